@@ -21,7 +21,12 @@ type c16Case struct {
 	Pos   string   `json:"pos"`   // top | block | include | n/a
 	Cmd   string   `json:"cmd"`   // generate | generate-stdin | update | compare | format | format-check | update-all | compare-all | compare-all-github | format-all | copyright
 	Which string   `json:"which"` // for --all: first | middle | last target in walk order
+	Arg   string   `json:"arg,omitempty"` // invalid-version: the version given with -v
 }
+
+// versions that update-copyright must refuse (a valid version wrapped in white space is not a valid version: it
+// would be written into the files as it is)
+var c16BadVersions = []string{"not-a-version", "4.x", "", "1.2.3.4.5", "v", "4..0", " 4.1.0", "4.1.0 ", "4.1.0\r", "4.1.0\n", "\t4.1.0", "4.1.0 beta", "4.1.0\n4.2.0", " ", "４.1.0"}
 
 // source-level faults: the faulty line(s)
 var c16SourceFaults = map[string][]string{
@@ -227,7 +232,7 @@ func c16Check(env *core.Env, cc core.Case) core.Verdict {
 		case "missing-version":
 			args = []string{"chore", "update-copyright", "-y", "2030"}
 		default:
-			args = []string{"chore", "update-copyright", "-v", core.Pick(rand.New(rand.NewSource(int64(idx))), "not-a-version", "4.x", "", "1.2.3.4.5", "v", "4..0"), "-y", "2030"}
+			args = []string{"chore", "update-copyright", "-v", c.Arg, "-y", "2030"}
 		}
 	}
 	if c.Fault == "extra-argument" && len(args) > 0 {
@@ -362,8 +367,12 @@ func c16Cases(env *core.Env, rng *rand.Rand) []core.Case {
 		}
 		for _, fault := range c16TreeFaults {
 			switch fault {
-			case "invalid-version", "missing-version":
+			case "missing-version":
 				cs = append(cs, &c16Case{Proj: p, Fault: fault, Pos: "n/a", Cmd: "copyright", Which: core.Pick(rng, "first", "middle", "last")})
+			case "invalid-version":
+				for _, bad := range c16BadVersions {
+					cs = append(cs, &c16Case{Proj: p, Fault: fault, Pos: "n/a", Cmd: "copyright", Which: "first", Arg: bad})
+				}
 			case "extra-argument":
 				for _, cmd := range []string{"generate", "update", "compare", "compare-github", "format", "format-check"} {
 					cs = append(cs, &c16Case{Proj: p, Fault: fault, Pos: "n/a", Cmd: cmd, Which: core.Pick(rng, "first", "middle", "last")})
